@@ -95,7 +95,10 @@ pub fn plan(id: &str) -> Option<Plan> {
             rule: "scenario = seeded breaker (count/time window, thresholds, wait 10-100ms, with/without fallback, slow-call detection) + 4-16 concurrent callers on clones whose completions land while others are admitted, force_open/force_closed/reset at seeded instants, arrivals at open+wait-1ms/=/+1ms; oracle over the merged listener/probe log; non-trivial iff the breaker opened while >=1 call was in flight and >=1 caller arrived while open; distinct = (poll trace, inner-call instants, transitions) signature",
             assumptions: BASE_ASSUMPTIONS.to_vec(),
             floor: 50,
-            engines: vec![Engine { name: "sim", salt: 1, quick: 6000, thorough: 400_000, serial: false, run: Box::new(|s, t| c03::scenario("C03", s, t)) }],
+            engines: vec![
+                Engine { name: "sim", salt: 1, quick: 6000, thorough: 400_000, serial: false, run: Box::new(|s, t| c03::scenario("C03", s, t)) },
+                Engine { name: "stress", salt: 2, quick: 3, thorough: 16, serial: true, run: Box::new(|s, t| c03::stress("C03", s, t.pick(20_000, 100_000))) },
+            ],
             extra: None,
         },
         "C09" => Plan {
@@ -103,7 +106,10 @@ pub fn plan(id: &str) -> Option<Plan> {
             rule: "scenario = as C03 with arrivals concentrated around the instant the open wait elapses (2-16 callers, trial latencies 0-30ms, mixed outcomes so the breaker closes or re-opens while trials run); oracle counts inner calls between an observed transition to half-open and the next transition; non-trivial iff more callers than permitted arrived during one half-open episode; distinct = (poll trace, inner-call instants, transitions) signature",
             assumptions: BASE_ASSUMPTIONS.to_vec(),
             floor: 50,
-            engines: vec![Engine { name: "sim", salt: 1, quick: 6000, thorough: 400_000, serial: false, run: Box::new(|s, t| c03::scenario("C09", s, t)) }],
+            engines: vec![
+                Engine { name: "sim", salt: 1, quick: 6000, thorough: 400_000, serial: false, run: Box::new(|s, t| c03::scenario("C09", s, t)) },
+                Engine { name: "stress", salt: 2, quick: 3, thorough: 16, serial: true, run: Box::new(|s, t| c03::stress("C09", s, t.pick(20_000, 100_000))) },
+            ],
             extra: None,
         },
         "C05" => Plan {
